@@ -208,6 +208,13 @@ DIRECTED = [
     # replaced LAST component: the O_NOFOLLOW / type check case (safe)
     [2, SEC | PERM | TIME, 0o22, [], [[T_DIR, b"d", b"", 0o700, 12345, b""], [T_SYMLINK, b"d", b"../outside/sub", 0o777, 1, b""]]],
     [2, SEC | PERM | TIME, 0o22, [], [[T_DIR, b"d/", b"", 0o700, 12345, b""], [T_SYMLINK, b"d", b"/outside/sub", 0o777, 1, b""]]],
+    # spellings of the directory name under which the fix-up is recorded (raw archive name): every one must be
+    # normalised before the O_NOFOLLOW open at close
+] + [
+    [2, SEC | PERM | TIME, 0o22, [], [[T_DIR, b"d" + suf, b"", md, 12345, b""], [T_SYMLINK, b"d", tgt, 0o777, 1, b""]]]
+    for suf in (b"//", b"///", b"////", b"/./", b"//.", b"/.//", b"/././/")
+    for md, tgt in ((0o555, b"../outside/sub"), (0o700, b"/outside/sub"))
+] + [
     # F2: hard link entry carrying data whose target is a symlink: chmod() follows
     [2, SEC | PERM | TIME, 0o22, [], [[T_SYMLINK, b"s", b"/outside/cfile", 0o777, 1, b""], [T_HARDLINK, b"h", b"s", 0o777, 1, b"hello"]]],
     [2, SEC, 0o22, [[2, b"s", b"../outside/cdir", 0]], [[T_HARDLINK, b"h", b"s", 0o700, 1, b"x"]]],
